@@ -7,6 +7,7 @@ import CookModel.Lemmas.AisleWF
 import CookModel.Lemmas.AisleRoundtrip
 import CookModel.Lemmas.AisleLookup
 import CookModel.Lemmas.AisleComplete
+import CookModel.Lemmas.AisleSink
 /-
   C11  Aisle configuration parsing is total, duplicate-free and round-trips.
 
@@ -218,5 +219,41 @@ theorem C11_unrepaired_roundtrip_fails :
     (∃ c, Orig.parse ['[',']','\n','\x0b'] = .ok c ∧ Orig.parse (write c) ≠ .ok c) :=
   ⟨⟨⟨[⟨['c'], [⟨[['[','a',']']]⟩]⟩]⟩, by decide, by decide⟩,
    ⟨⟨[⟨[], [⟨[[]]⟩]⟩]⟩, by decide, by decide⟩⟩
+
+-- ===== w7reauditB =====
+
+/-- **"Writing a parsed configuration …" into ANY destination.**  `aisle::write` does not return a text, it makes
+    `write_all` calls on an `impl io::Write` (`writeTo`, Side/AisleSink.lean), and a destination may accept fewer bytes per
+    call than it is offered (`Sink`: at most `perCall ≥ 1` bytes per `write` call, `cap` bytes in all — a pipe, a socket,
+    `&mut [u8]`; `Vec<u8>` is the case without limits).  Whatever the limits: the destination ends up with the UTF-8 bytes of
+    the text `write c`, in order, as far as it has room (`room = cap − bytes already there`); the call returns `Ok` exactly
+    when the whole text fitted — then the destination holds the whole text — and `Err(WriteZero)` otherwise.  It never
+    reports success for a truncated text, and how many bytes a call accepts does not matter.  (An implementation that hands
+    a buffer to `Write::write` once and drops the count satisfies this only for destinations that always take everything.) -/
+theorem C11_write_sink (c : Conf) (s : Sink) (hp : 0 < s.perCall) :
+    (writeTo c s).1.out = s.out ++ (utf8 (write c)).take s.room ∧
+    ((writeTo c s).2 = true ↔ (utf8 (write c)).length ≤ s.room) ∧
+    ((writeTo c s).2 = true → (writeTo c s).1.out = s.out ++ utf8 (write c)) := by
+  obtain ⟨h1, h2⟩ := asink_writeTo c s hp
+  refine ⟨h1, h2, fun hok => ?_⟩
+  rw [h1, List.take_of_length_le (h2.mp hok)]
+
+/-- … so the round trip holds through every such destination: a parsed configuration written into an empty destination
+    with room for it arrives complete, byte for byte the text whose re-parse is the configuration (`C11_roundtrip`). -/
+theorem C11_roundtrip_sink (t : List Char) (c : Conf) (h : parse t = .ok c) (perCall cap : Nat) (hp : 0 < perCall)
+    (hcap : (utf8 (write c)).length ≤ cap) :
+    (writeTo c ⟨perCall, cap, []⟩).2 = true ∧ (writeTo c ⟨perCall, cap, []⟩).1.out = utf8 (write c) ∧
+    parse (write c) = .ok c := by
+  obtain ⟨_, h2, h3⟩ := C11_write_sink c ⟨perCall, cap, []⟩ hp
+  have hok := h2.mpr (by simpa [Sink.room] using hcap)
+  exact ⟨hok, by simpa using h3 hok, C11_roundtrip t c h⟩
+
+/-- non-vacuity: "[é]\nb|c\n" (10 bytes) into a destination taking 3 bytes per call arrives complete (the two-byte `é` is
+    split across calls); into `&mut [u8; 7]` the first 7 bytes arrive and the call fails -/
+example : (parse ['[','é',']','\n','b','|','c','\n']).toOption.map (fun c => (writeTo c ⟨3, 100, []⟩)) =
+      some (⟨3, 100, [91, 195, 169, 93, 10, 98, 124, 99, 10, 10]⟩, true) ∧
+    (parse ['[','é',']','\n','b','|','c','\n']).toOption.map (fun c => (writeTo c ⟨100, 7, []⟩)) =
+      some (⟨100, 7, [91, 195, 169, 93, 10, 98, 124]⟩, false) := by decide +kernel
+-- ===== end w7reauditB =====
 
 end Cook
